@@ -51,10 +51,13 @@ func CombineFromNextProtos(prefix string, chunks []string) (string, error) {
 		// Strip that and the number
 		if strings.HasPrefix(chunk, prefix) {
 			rest := strings.TrimPrefix(chunk, prefix)
-			if len(rest) < 3 {
-				return "", fmt.Errorf("(%s) chunk is too short to contain a chunk header", op)
+			// The chunk number is at least two digits but grows beyond that
+			// for large values, so strip through the hyphen that ends it
+			idx := strings.IndexByte(rest, '-')
+			if idx < 0 {
+				return "", fmt.Errorf("(%s) chunk does not contain a chunk header", op)
 			}
-			ret += rest[3:]
+			ret += rest[idx+1:]
 		}
 	}
 	return ret, nil
